@@ -79,7 +79,10 @@ impl Prop for C06 {
         let mut rng = Rng::new(get(c, "seed").parse().unwrap_or(0));
         let keym = get(c, "mode") == "key";
         let (s, r, e, pk) = (rng.bytes(32), rng.bytes(32), rng.bytes(32), rng.bytes(32));
-        let (spk, rpk, epk) = (crate::props::c01::pub_of(&s), crate::props::c01::pub_of(&r), crate::props::c01::pub_of(&e));
+        let (spk, mut rpk, epk) = (crate::props::c01::pub_of(&s), crate::props::c01::pub_of(&r), crate::props::c01::pub_of(&e));
+        // a public key is the 32 bytes it is given as: every third key-mode encryption addresses the non-canonical encoding of the recipient's key
+        // (bit 255 set — legal input to X25519, which ignores the bit; Noise hashes the bytes as they are), and the file must still be the reference file
+        if keym && get(c, "kind") == "enc" && getn(c, "seed") % 3 == 0 { rpk[31] |= 0x80; o.tags.push("recipient key with bit 255 set".into()); }
         let pws: [&[u8]; 4] = [b"", b"pass123", "pässwörd".as_bytes(), &[0x41; 70]];
         let mut pw = pws[rng.below(4)].to_vec(); let salt = rng.bytes(32);
         if !get(c, "pwlen").is_empty() { let n = getn(c, "pwlen"); pw = (0..n).map(|i| b"correct horse battery staple "[i % 29]).collect(); }
